@@ -18,6 +18,26 @@ use super::{ComparableValue, Follow, Matcher, MatcherIO, WalkEntry};
 
 const SECONDS_PER_DAY: i64 = 60 * 60 * 24;
 
+/// Converts a file timestamp for display.  Unlike `DateTime::from(SystemTime)`
+/// this does not panic on a timestamp outside the range chrono can represent
+/// (some file systems store arbitrary 64-bit times); it returns `None`.
+pub fn to_utc_datetime(time: SystemTime) -> Option<DateTime<chrono::Utc>> {
+    let (secs, nanos) = match time.duration_since(UNIX_EPOCH) {
+        Ok(after) => (i64::try_from(after.as_secs()).ok()?, after.subsec_nanos()),
+        Err(e) => {
+            // Before the epoch: round the seconds down and count the
+            // nanoseconds forwards.
+            let before = e.duration();
+            let secs = i64::try_from(before.as_secs()).ok()?.checked_neg()?;
+            match before.subsec_nanos() {
+                0 => (secs, 0),
+                nanos => (secs.checked_sub(1)?, 1_000_000_000 - nanos),
+            }
+        }
+    };
+    DateTime::from_timestamp(secs, nanos)
+}
+
 fn get_time(matcher_io: &mut MatcherIO, today_start: bool) -> SystemTime {
     if today_start {
         // the time at 00:00:00 of today
